@@ -73,6 +73,11 @@ def jobs(tier, seed):
     for k in (1, 2, 3):
         js.append({"label": f"poll k={k}", "wl": wl("poll", k), "k": k, "ctx": True, "pos": 0, "budget": {},
                    "kind": "poll"})
+    # a worker death at any point of any delivery (poll / before mark / before ack), then lock expiry and
+    # redelivery: the carried retry count must survive the redelivery of a retry row
+    for k, ctx in ((MAX_ATTEMPTS, False), (3, True)):
+        js.append({"label": f"transient k={k} ctx={ctx} worker-death1", "wl": wl("transient", k, ctx), "k": k,
+                   "ctx": ctx, "pos": 0, "budget": {"noack": 1}, "max_states": 400000})
     if tier == "thorough":
         for k in (1, 2, 3, MAX_ATTEMPTS - 1, MAX_ATTEMPTS):
             for ctx in (True, False):
@@ -96,7 +101,7 @@ def build(job):
     tname = "t" if kind == "poll" else f"t{job['pos']}"
     mon = TransientMonitor("A", tname, job["k"], job["ctx"], kind)
     return Explorer(w, workload, [mon], job.get("budget"), max_states=job.get("max_states", 150000),
-                    time_cap=job.get("time_cap", 1200))
+                    time_cap=job.get("time_cap", 1200), die_points=("poll", "mark", "ack"))
 
 
 def run_job(job):
